@@ -15,6 +15,8 @@ STATIC_THEOREMS = [
     'SnapraidVerif.Props.C15.countlimit_le',
     'SnapraidVerif.Props.C15.books',
     'SnapraidVerif.Props.C15.auto_bound',
+    'SnapraidVerif.Props.C15.scrub_progress',
+    'SnapraidVerif.Props.C15.eventually_scrubbed',
 ]
 
 NOW = 1_700_000_000
